@@ -314,3 +314,38 @@ func (x *Ctx) returnCases(fn *ssa.Function, bind map[ssa.Value]*RX, depth int, s
 	}
 	return out
 }
+
+// cellValue: for a load of a local cell (a named result spilled because a deferred closure captures it) the value
+// most recently stored into it in the same block, with no call in between (a call could run a closure that writes
+// the cell); otherwise v itself.
+func cellValue(v ssa.Value) ssa.Value {
+	ld, ok := v.(*ssa.UnOp)
+	if !ok || ld.Op != token.MUL {
+		return v
+	}
+	al, ok := ld.X.(*ssa.Alloc)
+	if !ok {
+		return v
+	}
+	instrs := ld.Block().Instrs
+	for i := len(instrs) - 1; i >= 0; i-- {
+		if instrs[i] != ssa.Instruction(ld) {
+			continue
+		}
+		for j := i - 1; j >= 0; j-- {
+			switch t := instrs[j].(type) {
+			case *ssa.Store:
+				if t.Addr == ssa.Value(al) {
+					return t.Val
+				}
+			case *ssa.Call:
+				if _, isB := t.Call.Value.(*ssa.Builtin); !isB {
+					return v
+				}
+			case *ssa.Defer, *ssa.Go, *ssa.RunDefers:
+				return v
+			}
+		}
+	}
+	return v
+}
